@@ -22,7 +22,7 @@ RULE = ("15 aggregator classes (all but NashMTL) x dtype x shape classes (m=1, n
 ASSUMPTIONS = ["homogeneity judged in units of s |w|_1 with tau = 1e-9 (float64) / 1e-4 (float32), CAGrad 1e-6 / 5e-3",
                "inputs on which a decision threshold of the algorithm is within rounding distance are not judged (guards of C08)"]
 NAMES = E.ALL
-N = {"quick": (1500, 1, 900), "thorough": (45000, 20, 27000)}
+N = {"quick": (1500, 1, 900), "thorough": (90000, 40, 54000)}
 LADDER = {"float32": [-12, -9, -6, -3, 3, 6, 9, 12, 15], "float64": [-100, -75, -50, -25, -10, -3, 3, 10, 25, 50, 75, 100]}
 FINE = [3e-4, 1e-3, 3e-3, 1e-2, 1e-1]
 
